@@ -195,6 +195,19 @@ CHECKS["C16"] = dict(
     design_ref="DESIGN.md#c16",
 )
 
+CHECKS["C15"] = dict(
+    category="exploration",
+    text="Real `st run` invocations (in-process, real argv) with unique high-entropy canaries planted on subsets of the routes a secret "
+    "can take (Authorization / X-API-Key / marker-named headers in several spellings, --auth, --set-query/-header/-cookie, URL "
+    "userinfo, response Set-Cookie and token headers) against an API that fails checks so that failures, curl lines and responses are "
+    "printed; all emitted bytes (console, JUnit, VCR, HAR; preserve-bytes on/off; custom sanitisation config) are searched for each "
+    "canary in raw, percent-encoded, base64 and user:password-base64 form. Sanitisation off must show the canaries of the exercised "
+    "routes (otherwise the route does not count).",
+    note="Generated security-parameter values are only searched when they are long printable tokens.",
+    technique="runtime monitoring: canary (taint) search over every produced artefact",
+    design_ref="DESIGN.md#c15",
+)
+
 NOT_APPLICABLE = {}
 
 
